@@ -80,6 +80,17 @@ CLAIMS.update({
                     "WhenDisposed, and later Add/Remove/Set/CanAdd/When* calls return neutral values.",
             "note": MK_NOTE + " Dispose() proper (forked, sleeping), handler-goroutine exit, concurrent dispose: outside the claim.", "technique": TECH_FORK,
             "design_ref": "DESIGN.md section 4 (C13)"},
+    "C16": {"text": "Lookup kernels of the debugger's server.Client executed on symbolic streams: TxAtQueueTick, TxAtMachTime (real sort.Search / slices.BinarySearchFunc), "
+                    "HadErrSinceTx, TxIndex with its cache, Tx/TxParsed bounds and FilterIndexByCursor1 return what a linear scan of the same predicate returns, for every "
+                    "stream of up to 4 transitions with monotone 64-bit ticks / sums and every query value; no reachable panic.",
+            "note": "Partial: hParseMsg derivations, TUI navigation, export/import and multi-client server are outside the claim. Trusted: go/ssa, symgo, z3.",
+            "technique": TECH_FORK, "design_ref": "DESIGN.md section 4 (C16)"},
+    "C19": {"text": "Every exported machine.Schema variable of the module (44 at the pinned commit, found by a go/types scan and dumped natively from the current source into "
+                    "Go literals) is checked for well-formedness (parses, references, Require cycle, Require-Remove conflict, agreement with its typed name list) and then "
+                    "driven through the real Add1/Remove1 path from the empty machine for every history of bounded depth with the mutated state and kind as symbolic choices: "
+                    "Require closure and mutual-Remove exclusivity hold after every step.",
+            "note": MK_NOTE + " Bounded histories only (depth 2 quick / 3 thorough for small schemas): active sets that need longer histories are outside the claim.",
+            "technique": TECH_FORK, "design_ref": "DESIGN.md A.4 / section 4 (C19)"},
 })
 
 NA = {
